@@ -360,6 +360,45 @@ C05box_OK(ev) ==
   /\ \A i \in Idx(ev.doc) : i \notin R => IsText(ev.doc.elems[i]) /\ TextMatches(crs, ev.doc.elems[i])
   /\ NonDrawingCells(crs) \subseteq UNION { TextCovered(ev.doc.elems[i]) : i \in OfKind(ev.doc, "text") }
 
+\* several boxes on one page, close enough to share a span (a caption squeezed between two of them, corner to corner on
+\* a diagonal, a column of letters between two side by side): ev.boxes = sequence of [k, n, w, h].  Each is a box of the
+\* family where it stands, and the rect elements of the document are exactly theirs - one per box, each with its own
+\* position, size, radius and class, whatever the other boxes are.
+At1(crs, r, c) == IF r \in 1..Len(crs) /\ c \in 1..Len(crs[r]) THEN crs[r][c] ELSE SP
+BoxAtOK(crs, b) ==
+  LET top == b.n + 1 bot == b.n + b.h + 2 L0 == b.k + 1 R0 == b.k + b.w + 2
+      tl == At1(crs, top, L0) tr == At1(crs, top, R0) bl == At1(crs, bot, L0) br == At1(crs, bot, R0)
+      ascii == tl \in AsciiTL
+      sharp == tl \in {43, 9484}
+      hz == BoxHz \cup UniHz
+      side == BoxSide \cup UniSide IN
+  /\ (ascii => tr \in AsciiTR /\ bl \in AsciiBL /\ br \in AsciiBR) /\ (~ascii => tl \in UniTL /\ tr \in UniTR /\ bl \in UniBL /\ br \in UniBR)
+  /\ (sharp => (tr \in {43, 9488} /\ bl \in {43, 9492} /\ br \in {43, 9496}))
+  /\ (~sharp => (tr \notin {43, 9488} /\ bl \notin {43, 9492} /\ br \notin {43, 9496} /\ b.w >= 1))
+  /\ \A c \in (L0 + 1)..(R0 - 1) : At1(crs, top, c) \in hz /\ At1(crs, bot, c) \in hz
+  /\ \A r \in (top + 1)..(bot - 1) :
+       /\ At1(crs, r, L0) \in side /\ At1(crs, r, R0) \in side
+       /\ \A c \in (L0 + 1)..(R0 - 1) : At1(crs, r, c) \in {SP, NUL} \/ BoxLabel(At1(crs, r, c))
+  /\ \A col \in {L0, R0} :
+       /\ (b.h >= 1 => \E r \in (top + 1)..(bot - 1) : At1(crs, r, col) \in {124, 9474})
+       /\ \A r \in (top + 1)..(bot - 1) : At1(crs, r, col) \in {58, 33} =>
+             (r - 1 > top /\ At1(crs, r - 1, col) \in BoxSide) \/ (r + 1 < bot /\ At1(crs, r + 1, col) \in BoxSide)
+BoxAtDashed(crs, b) == \E r \in (b.n + 1)..(b.n + b.h + 2) : \E c \in (b.k + 1)..(b.k + b.w + 2) : At1(crs, r, c) \in DashedCp
+BoxAtRounded(crs, b) == At1(crs, b.n + 1, b.k + 1) \notin {43, 9484}
+RectIsBox(e, crs, b) ==
+  /\ e.n[1] = (b.k * CW + 4) * MILLI /\ e.n[2] = (b.n * CH + 8) * MILLI
+  /\ e.n[3] = (b.w + 1) * CW * MILLI /\ e.n[4] = (b.h + 1) * CH * MILLI
+  /\ e.n[5] = (IF BoxAtRounded(crs, b) THEN 4 * MILLI ELSE 0)
+  /\ (IsBroken(e) <=> BoxAtDashed(crs, b)) /\ (IsSolid(e) <=> ~BoxAtDashed(crs, b))
+  /\ HasCls(e, "nofill") /\ e.g = 0
+C05multi_OK(ev) ==
+  LET crs == DrawCells(ev) R == { i \in Idx(ev.doc) : IsRect(ev.doc.elems[i]) } IN
+  /\ ev.doc.wf = 1
+  /\ \A j \in 1..Len(ev.boxes) : BoxAtOK(crs, ev.boxes[j])
+  /\ Cardinality(R) = Len(ev.boxes)
+  /\ \A j \in 1..Len(ev.boxes) : \E i \in R : RectIsBox(ev.doc.elems[i], crs, ev.boxes[j])
+  /\ NonDrawingCells(crs) \subseteq UNION { TextCovered(ev.doc.elems[i]) : i \in OfKind(ev.doc, "text") }
+
 ---------------------------------------------------------------------------
 (* C13 — catalogue circles.  ev.circ = [idx, k, n, extra]                                   *)
 DrawingW(D) == SetMax({ Len(D[r]) : r \in 1..Len(D) })
